@@ -352,10 +352,14 @@ fn oracle(n: usize, out: &RunOut) -> Vec<(String, String)> {
     }}
     // (4) an `empty` answer needs an instant of the call at which nothing was pending:
     //     E = sends completed before the call, D = successful receives started before the return; E > D => never empty
+    //     (exact form: at EVERY instant tau of the call, more sends had already returned than successful receives had been called)
     for e in evs.iter().filter(|e| e.op == "recv" && e.res == "empty") {
         let en = accepted.iter().filter(|a| a.3 < e.call).count();
         let dn = got.iter().filter(|g| g.call < e.ret).count();
         if en > dn { v.push(("empty_while_pending".into(), format!("thread {} was answered `empty` (trace lines {}..{}) although {} accepted events were completed before the call and only {} receives had started before its return", e.ltid, e.call, e.ret, en, dn))); }
+        else if (e.call..=e.ret).all(|tau| accepted.iter().filter(|a| a.3 < tau).count() > got.iter().filter(|g| g.call < tau).count()) {
+            v.push(("empty_while_pending".into(), format!("thread {} was answered `empty` (trace lines {}..{}) although at every instant of that call more sends had returned `accepted` than successful receives had been called: the queue was never empty during the call", e.ltid, e.call, e.ret)));
+        }
     }
     // (5) a `full` answer needs an instant at which all N slots were taken (by accepted-unreceived events, reservations or
     //     sends in progress): S = producer-side claims started before the return and not finished-as-rejected/cancelled
@@ -372,7 +376,12 @@ fn oracle(n: usize, out: &RunOut) -> Vec<(String, String)> {
         if s < n + r + cancelled { v.push(("full_while_room".into(), format!("thread {} was answered `full` (trace lines {}..{}) although at most {} claims minus {} receives minus {} cancellations = fewer than N={} slots can have been taken", e.ltid, e.call, e.ret, s, r, cancelled, n))); }
     }
     // (6) length answers stay within [0, N]
-    for e in evs.iter().filter(|e| e.op == "len") { if e.arg as usize > n { v.push(("len_out_of_range".into(), format!("length {} reported with N={}", e.arg, n))); } }
+    // a length query is two plain loads (`tail`, then `head`): while a receive by another thread overlaps it, `head` may pass the
+    // `tail` loaded before and the difference wraps -- no property speaks about such a racing query; every other one must be <= N
+    for e in evs.iter().filter(|e| e.op == "len") {
+        let raced = evs.iter().any(|r| r.op == "recv" && r.ltid != e.ltid && r.call < e.ret && e.call < r.ret);
+        if e.arg as usize > n && !raced { v.push(("len_out_of_range".into(), format!("length {} reported with N={} (no receive overlapped the query)", e.arg, n))); }
+    }
     // (7) capacity restored: the drained ring accepts exactly N events
     for l in &out.outcome.trace { if let Some(k) = l.strip_prefix("refill ") { if k.parse::<usize>().ok() != Some(n) { v.push(("capacity_not_restored".into(), format!("after draining, {} of {} sends were accepted (expected exactly N={})", k, n + 1, n))); } } }
     v
